@@ -27,10 +27,29 @@ def rf_uniform(rng, p=R_BLS381):
     return rng.randrange(1, p)
 
 
-def rand_poly(rng, maxlen, p=R_BLS381):
+_SWEEP = {}
+
+
+def sweep_choice(rng, key, options):
+    """like rng.choice(options) (duplicates are weights), but balanced within one run of a check: the option whose use
+    count relative to its weight is smallest is taken, ties broken by rng - so every shape of input comes up within a few
+    draws per key instead of being left to chance."""
+    weights = {}
+    for o in options:
+        weights[o] = weights.get(o, 0) + 1
+    used = _SWEEP.setdefault(key, {})
+    best = min(used.get(o, 0) / weights[o] for o in weights)
+    cands = [o for o in weights if used.get(o, 0) / weights[o] == best]
+    o = rng.choice(cands)
+    used[o] = used.get(o, 0) + 1
+    return o
+
+
+def rand_poly(rng, maxlen, p=R_BLS381, key="uni"):
     """coefficient list (low order first) with the shapes the suite never generates.
     Returns (coeffs, shape)."""
-    shape = rng.choice(["dense", "dense", "dense", "zero", "const", "lowzeros", "highzeros", "sparse", "top", "short"])
+    shape = sweep_choice(rng, ("rand_poly", key),
+                         ["dense", "dense", "dense", "zero", "const", "lowzeros", "highzeros", "sparse", "top", "short"])
     if maxlen <= 0:
         return [], "zero"
     if shape == "zero":
